@@ -24,8 +24,8 @@ type fault struct {
 	parentRaised bool
 	// form of a reference fault: "" (the whole value is the reference) or the
 	// kind of splice the reference is embedded in
-	form string
-	wantRel      string // the error is expected to name this setting below the fault position
+	form    string
+	wantRel string // the error is expected to name this setting below the fault position
 	// extras are helper settings added at the top level of the configuration
 	// (only when the target is a struct, which does not read them): they are
 	// reached through the reference at the fault position only
@@ -66,9 +66,9 @@ func hasTag(tag, name string) bool {
 // faultEnv is what the fault kinds need to know about the case.
 type faultEnv struct {
 	pick      func(n int) int
-	topStruct bool                 // the Unpack target is a struct: unknown top-level keys are not read
-	primFor   func(p []seg) string // dotted path of a primitive setting elsewhere in the valid tree ("" if none)
-	dictFor   func(p []seg) string // dotted path of a non-empty dictionary elsewhere in the valid tree ("" if none)
+	topStruct bool                        // the Unpack target is a struct: unknown top-level keys are not read
+	primFor   func(p []seg) string        // dotted path of a primitive setting elsewhere in the valid tree ("" if none)
+	dictFor   func(p []seg) string        // dotted path of a non-empty dictionary elsewhere in the valid tree ("" if none)
 	listFor   func(p []seg) (string, int) // dotted path and length of a non-empty list elsewhere in the valid tree
 }
 
